@@ -1197,7 +1197,7 @@ def post_witness(prop):
 
 PROPS = {
     "C01": dict(module="FV.Props.C01", theorems=["FV.Props.C01_validate_total", "FV.Props.C01_from_bytes_total"], suites=["bytes"], proj=proj_C01, oracle=oracle_C01),
-    "C02": dict(module="FV.Props.C02Accept", theorems=["FV.Props.C02_view_within", "FV.Props.C02_truncation_validates", "FV.Props.C02_deep_read_total", "FV.Props.C02_content_consistent", "FV.Props.C02_gate", "FV.Props.C02_fields_accept_iff", "FV.Props.C02_vec_accepts_iff", "FV.Props.C02_str_accepts_iff", "FV.Props.C02_enum_accepts_iff", "FV.Props.C02_flex_accepts_iff", "FV.Props.C02_own_bytes_validate", "FV.Ty.sizeView"], suites=["bytes"], proj=proj_C02, oracle=oracle_C02),
+    "C02": dict(module="FV.Props.C02Accept", theorems=["FV.Props.C02_view_within", "FV.Props.C02_truncation_validates", "FV.Props.C02_deep_read_total", "FV.Props.C02_content_consistent", "FV.Props.C02_content_well_typed", "FV.Props.C02_gate", "FV.Props.C02_fields_accept_iff", "FV.Props.C02_vec_accepts_iff", "FV.Props.C02_str_accepts_iff", "FV.Props.C02_enum_accepts_iff", "FV.Props.C02_flex_accepts_iff", "FV.Props.C02_own_bytes_validate", "FV.Ty.sizeView"], suites=["bytes"], proj=proj_C02, oracle=oracle_C02),
     "C04": dict(module="FV.Props.C04", theorems=["FV.Props.C04_view_fits", "FV.Props.C04_ceil_least", "FV.Props.C04_floor_greatest", "FV.Props.C04_positions_eq_c", "FV.Props.C04_struct_size_eq_c", "FV.Props.C04_enum_data_offset_eq_c", "FV.Props.C04_vec_data_offset_eq_c"], suites=["bytes"], proj=proj_C04, oracle=oracle_C04),
     "C05": dict(module="FV.Props.C05", theorems=["FV.Props.C05_size_exact", "FV.Props.C05_truncation_same_content"], suites=["bytes", "emplace", "ops"], proj=proj_C05, oracle=oracle_C05),
     "C03": dict(module="FV.Props.C03Full", theorems=["FV.Props.C03_emplace_reads_back", "FV.Props.C03_portable_image_is_serialisation", "FV.Props.C03_emplace_validates_partial", "FV.Props.C03_large_enough_is_accepted", "FV.Props.C03_struct_fields_at_c_offsets", "FV.Props.C03_assign_reads_back", "FV.Props.C03_enum_tag_and_fields_at_c_offsets", "FV.Props.C03_enum_unsized_variant_image", "FV.Props.C03_vec_from_iterator", "FV.emplaceU_ok", "FV.emplaceU_content", "FV.emplaceU_acc", "FV.repB_iff", "FV.flexFill_spec", "FV.flexFill_content"], suites=["emplace"], proj=proj_C03, oracle=oracle_C03),
